@@ -195,8 +195,13 @@ pub fn oracle(scn: &SenderScn, ctx: &Ctx, trace: &SenderTrace) {
             let mine: Vec<&Transfer> = tr.list.iter().filter(|t| t.obj == i).collect();
             let cut = mine.iter().find(|t| t.start_seq < r && t.stop_seq.map(|s| s > r).unwrap_or(true));
             let full = mine.iter().filter(|t| t.stop_seq.map(|s| s < r).unwrap_or(false)).map(|t| t.pkts.len()).max();
+            // (a transfer that had started but not yet sent anything still has all its symbols to send)
+            let full = match (cut, full) {
+                (Some(c), None) if c.pkts.is_empty() && o.len > 0 => Some(1usize.max(o.len / 1_000_000)),
+                _ => full,
+            };
             if let (Some(c), Some(n)) = (cut, full) {
-                if c.pkts.len() < n && !c.pkts.is_empty() {
+                if c.pkts.len() < n && (!c.pkts.is_empty() || o.len > 0) {
                     violate(
                         ctx,
                         "C08/no-close-packet-after-removal",
